@@ -640,6 +640,8 @@ def run(ctx: Ctx):
     funcs = [repo.func(q) for q in DRIVERS] + [repo.func(q) for q in SQRT_SCOPE_EXTRA]
     ctx.guarded(sqrt_guard, ctx, funcs)
     ctx.guarded(last_mode, ctx)
+    res.rule("MASK-FORWARD", "a driver that takes a `mask` hands it to the routine that computes its reported error (error_calc): every such call binds the callee's `mask` to (something computed from) the driver's own mask, never to a constant or the default -- with missing values the norm shortcut of the error is not valid and the full masked residual has to be taken", floor=4)
+    ctx.guarded(mask_forward, ctx)
     res.rule("ELEMENT-VS-POSITION", "in every driver the loop variable of a sweep over a *filtered* list of mode numbers is only compared with elements of that list (or with mode numbers), never with a position in / the length of the list", floor=1)
     ctx.guarded(element_vs_position, ctx)
     res.stats["drivers"] = list(DRIVERS)
@@ -701,3 +703,37 @@ def element_vs_position(ctx: Ctx):
                                 ctx.finding("ELEMENT-VS-POSITION", f, c, f"`{src(c)[:80]}` compares `{m}`, an ELEMENT of the filtered mode list `{L}` (a mode number), with a POSITION / length of `{pl}`: the two coincide only when no mode was filtered out (e.g. no fixed modes). The guard then fires for the wrong mode, e.g. normalising before the error shortcut that reuses the last MTTKRP", construct=f"{f.name}: {src(c)[:60]} element vs position")
     if n == 0:
         raise AnalysisError("ELEMENT-VS-POSITION: no comparison on the loop variable of a filtered mode list was found in any driver; the rule's anchors vanished")
+
+
+# ---------------------------------------------------------------------------------
+# MASK-FORWARD: the error routine sees the mask the driver was given
+# ---------------------------------------------------------------------------------
+ERROR_ROUTINES = {"error_calc"}
+
+
+def mask_forward(ctx: Ctx):
+    from ..common import inline_locals
+    from ..model import bind_call
+
+    repo, res = ctx.repo, ctx.res
+    n = 0
+    for f in sorted(repo.functions.values(), key=lambda x: x.qname):
+        if "mask" not in f.all_params or not f.module.name.startswith("tensorly.decomposition"):
+            continue
+        for c in own_scope_nodes(f.node):
+            if not isinstance(c, ast.Call):
+                continue
+            ct = repo.resolve_call(f, f.module, c)
+            if ct.kind != "repo" or not any(g.name in ERROR_ROUTINES and "mask" in g.all_params for g in ct.funcs):
+                continue
+            g = ct.funcs[0]
+            b = bind_call(c, g, ct.bound)
+            a = b.params.get("mask")
+            n += 1
+            full = inline_locals(f.node, a) if a is not None else None
+            ok = full is not None and any(isinstance(x, ast.Name) and x.id == "mask" for x in ast.walk(full))
+            res.instance("MASK-FORWARD", f"{f.qname} -> {g.name}", sample={"line": c.lineno, "mask_argument": src(a) if a is not None else "<default>", "ok": ok})
+            if not ok:
+                ctx.finding("MASK-FORWARD", f, c, f"{f.name} takes a `mask` but calls {g.name} with mask={src(a) if a is not None else '<default None>'}: the reported error is then computed as if no entry were missing (norm shortcut on imputed data), so it is not the error of the returned decomposition on the observed entries", construct=f"{f.name} -> {g.name}: mask={src(a) if a is not None else '<default>'}")
+    if n == 0:
+        raise AnalysisError("MASK-FORWARD: no driver with a `mask` parameter calls an error routine any more; cannot decide")
